@@ -41,7 +41,7 @@ LEVEL_TEXT = ("Sampled histories and (base, target) pairs; each is pushed "
 LEVEL_NOTE = ("Histories are bounded (<= 8 revisions, <= 3 parents). When the "
               "reference merge from the branch itself raises, the bundle / "
               "directive merges are only required to fail the same way.")
-REGISTERED = False
+REGISTERED = True
 NONTRIVIAL_FLOOR = {"quick": 30, "thorough": 1000}
 
 F26 = "C40/v09-bundle-complex-renames"
